@@ -109,3 +109,8 @@ func init() {
 		},
 	})
 }
+
+func init() {
+	c := fw.Lookup("C16")
+	c.Phases = append(c.Phases, sqlExtraPhases(evalC16, false)...)
+}
